@@ -4,6 +4,7 @@ import (
 	"bufio"
 	"encoding/json"
 	"errors"
+	"math"
 	"os"
 	"strings"
 	"time"
@@ -41,6 +42,9 @@ func openHist(filename string) (list []Item, err error) {
 	}
 
 	scanner := bufio.NewScanner(file)
+	// bufio.Scanner stops at the first line longer than 64 KiB unless given a
+	// bigger limit; that silently dropped the long entry and every entry after it
+	scanner.Buffer(make([]byte, 0, bufio.MaxScanTokenSize), math.MaxInt)
 	for scanner.Scan() {
 		var item Item
 		err := json.Unmarshal(scanner.Bytes(), &item)
